@@ -764,6 +764,40 @@ func (s *sigSpec) candidates(cfg *Config, ct *callT) []cand {
 			}
 		}
 	}
+	// rename b <-> a at one argument position (clauses and call together) if that makes the case simpler
+	maxPos := 0
+	for _, cl := range cfg.Clauses {
+		for _, a := range cl.Alts {
+			if len(a) > maxPos {
+				maxPos = len(a)
+			}
+		}
+	}
+	if ct != nil && len(ct.args) > maxPos {
+		maxPos = len(ct.args)
+	}
+	for p := 0; p < maxPos; p++ {
+		n := cloneCfg(cfg)
+		c := cpCall()
+		before, after := 0, 0
+		for i := range n.Clauses {
+			for k, a := range n.Clauses[i].Alts {
+				if p < len(a) && a[p] <= aB {
+					before += a[p]
+					n.Clauses[i].Alts[k][p] = 1 - a[p]
+					after += 1 - a[p]
+				}
+			}
+		}
+		if c != nil && p < len(c.args) && c.args[p] <= 1 {
+			before += c.args[p]
+			c.args[p] = 1 - c.args[p]
+			after += c.args[p]
+		}
+		if after < before {
+			out = append(out, cand{n, c})
+		}
+	}
 	// simpler atoms: a < b < Any() < In(a,b)
 	for i, cl := range cfg.Clauses {
 		for k, a := range cl.Alts {
@@ -1002,6 +1036,7 @@ func Run(c *vk.Ctx) {
 						continue
 					}
 					if c.Full() || c.Expired() {
+						c.Res.Exhaustive = false // stopped early: violation list full or budget used up
 						goto done
 					}
 					und := s.undecided(&cfg)
